@@ -1,5 +1,59 @@
-import ZorgVerif.Model.Exec
+import ZorgVerif.Lemmas.Exec
+/-!
+# C09 — Query output renders the selected notes faithfully
+Model: `Model/Exec.lean` (group → order → select → render).  The theorems are about the tree
+`execTree q ns` that `render` prints (one header level per GROUP BY dimension, label omitted when empty).
+-/
 namespace ZorgVerif.C09
-open ZorgVerif.Exec
-theorem C09_placeholder : dedup ["a".toList, "b".toList, "a".toList] = ["a".toList, "b".toList] := by decide
+open ZorgVerif ZorgVerif.Query ZorgVerif.Exec
+
+/-- every matching note appears exactly once (the leaves, read left to right, are a permutation of the
+WHERE result), for every list of notes and every GROUP BY / ORDER BY combination -/
+theorem C09_partition (q : Query) (ns : List XNote) : (execTree q ns).notes.Perm ns :=
+  execTree_notes_perm q ns
+
+/-- a note sits under the header labels that equal its value for each GROUP BY dimension, one level per
+dimension -/
+theorem C09_labels (q : Query) (ns : List XNote) :
+    ∀ pl ∈ (execTree q ns).paths, ∀ n ∈ pl.2, pl.1 = q.groupBy.map (fun g => groupKey g n) :=
+  execTree_labels q ns
+
+/-- sibling headers are strictly increasing: sorted and distinct -/
+theorem C09_siblings (q : Query) (ns : List XNote) : SiblingsSorted (execTree q ns) :=
+  execTree_siblings q ns
+
+/-- within a group notes appear in the order of the (joined) ORDER BY key -/
+theorem C09_order (q : Query) (ns : List XNote) :
+    ∀ pl ∈ (execTree q ns).paths, pl.2.Pairwise (fun a b => strLe (orderKey q.orderBy a) (orderKey q.orderBy b) = true) :=
+  execTree_leaves_sorted q ns
+
+/-- tag / property-key / property-value / link / file selections list exactly the distinct values carried
+by the notes of the group; sorted when ordered by alpha -/
+theorem C09_select (f : SelectField) (alpha : Bool) (ns : List XNote) (hf : f ≠ .note) :
+    (selectField f alpha ns).Nodup ∧
+    (∀ x, x ∈ selectField f alpha ns ↔ x ∈ (match f with
+        | .file => ns.map (·.path) | .area => ns.flatMap (·.areas) | .context => ns.flatMap (·.contexts)
+        | .person => ns.flatMap (·.people) | .project => ns.flatMap (·.projects) | .links => ns.flatMap (·.links)
+        | .prop => ns.flatMap (fun n => n.props.map (·.1)) | .propValues k => ns.filterMap (fun n => n.props.lookup k)
+        | .note => [] : List Str)) ∧
+    (selectField f true ns).Pairwise (fun a b => strLe a b = true) :=
+  ⟨selectField_nodup f alpha ns hf, fun x => selectField_values f alpha ns hf x, selectField_alpha_sorted f ns hf⟩
+
+/-- `count(x)` equals the number of entries that selecting `x` yields for the same group -/
+theorem C09_count (f : SelectField) (alpha : Bool) (ns : List XNote) :
+    selectLeaf (.count f) alpha ns = natToStr (selectField f alpha ns).length := rfl
+
+/-- **Negative result** (known finding C09.order_none_string_compare): with the string key
+`path::line`, line 10 sorts before line 9 — `none` is *not* "page path then line number". -/
+def nl (line : Nat) : XNote :=
+  ⟨"- n".toList, "p.zo".toList, line, [], [], [], [], [], [], [], [], [], [], []⟩
+theorem C09_order_none_counterexample :
+    strLt (orderKey [.none] (nl 10)) (orderKey [.none] (nl 9)) = true := by decide +kernel
+
+/-! Non-vacuity (the sort itself is well-founded recursion and does not reduce in the kernel; the
+run-splitting and key functions do) -/
+example : (runs (groupKey .priority) [{ nl 4 with priority := "P1".toList }, { nl 5 with priority := "P1".toList },
+    { nl 3 with priority := "P2".toList }]).map (fun r => (r.1, r.2.map (·.line))) = [("P1".toList, [4, 5]), ("P2".toList, [3])] := by
+  decide +kernel
+
 end ZorgVerif.C09
